@@ -68,6 +68,10 @@ func decidingConds(fn *ssa.Function, b *ssa.BasicBlock) []struct {
 
 func runC03(c *Ctx) {
 	p := c.P
+	// shared rule: an object counts as present only together with its size (rules_c09.go)
+	objectPresenceRule(c, "R8", getStoreFlow(p))
+	// shared rule: history/tree scanners stop only at the end of their input (rules_c05.go)
+	scannerVerdictRule(c, "R9")
 	up := p.Fn("commands", "(*uploadContext).UploadPointers")
 	prep := p.Fn("commands", "(*uploadContext).prepareUpload")
 	if up == nil || prep == nil {
@@ -542,9 +546,12 @@ func c03Verify(c *Ctx) {
 					c.OK("R5", key, p.InstrPos(r), "success only if the verification succeeded")
 					continue
 				}
-				if isErrorConstructor(n) {
-					continue
+				if isErrorConstructor(n) && NeverNil(v) {
+					continue // an error value built on the spot: a failure
 				}
+			}
+			if NeverNil(v) {
+				continue
 			}
 			mayNil := true
 			if !IsNilConst(v) {
